@@ -205,7 +205,7 @@ func checkApplyLinear(p *Program, r *Report, pre string) {
 // C13
 
 func runC13(p *Program, r *Report) {
-	r.Explanation = "Engine S extracts componentToLAB, componentFromLAB, Color.ToLAB and ColorFromLAB as piecewise exact forms and compares them with the CIE 1976 definition: ε = 216/24389 and κ = 24389/27 as exact rationals (so κ·ε = 8 and the two branches meet: continuity of the junction is an exact identity), f(r) = r^(1/3) for r > ε else (κr+16)/116 with r = component/white component of the SAME axis, L = 116 f_y − 16, a = 500(f_x − f_y), b = 200(f_y − f_z); inverse f_y = (L+16)/116, f_x = a/500 + f_y, f_z = f_y − b/200, f³ > ε → f³ else (116f−16)/κ, Y branch L > κε → f_y³ else L/κ, each multiplied by the matching white component; every Pow with a fractional exponent is guarded by base > ε > 0 (no NaN). Derived by algebra: white → (100,0,0), a=b=0 on the white axis, monotone L, branchwise inverse. Not decided: measured numeric error (float64 arithmetic, one float32 rounding)."
+	r.Explanation = "Color.ToLAB and ColorFromLAB are abstractly interpreted with every helper inlined (2^3 paths each); on each path the case split and the returned triple are compared, as exact forms, with the CIE 1976 definition: ε = 216/24389 and κ = 24389/27 as exact rationals (so κ·ε = 8 and the two branches meet: continuity of the junction is an exact identity), f(r) = r^(1/3) for r > ε else (κr+16)/116 with r = component/white component of the SAME axis, L = 116 f_y − 16, a = 500(f_x − f_y), b = 200(f_y − f_z); inverse f_y = (L+16)/116, f_x = a/500 + f_y, f_z = f_y − b/200, f³ > ε → f³ else (116f−16)/κ, Y branch L > κε → f_y³ else L/κ, each multiplied by the matching white component; every Pow with a fractional exponent is guarded by base > ε > 0 (no NaN). Derived by algebra: white → (100,0,0), a=b=0 on the white axis, monotone L, branchwise inverse. Not decided: measured numeric error (float64 arithmetic, one float32 rounding)."
 	r.RuleText = "one instance per constant, branch guard and branch value; non-trivial = comparisons of extracted forms with the CIE formulas"
 	r.Trusted = []string{"go/packages+go/types+go/ssa (x/tools v0.29.0)", "the abstract interpreter and normal forms", "math.Pow"}
 
